@@ -221,6 +221,7 @@ def extract_prints(out_path, tagname):
             m = rx.match(line.rstrip("\n"))
             if m:
                 out.append(json.loads(m.group(1)))
+    out.sort()      # TLC's workers print in no particular order; the cases are a set, and a run must be reproducible
     return out
 
 
